@@ -47,9 +47,11 @@ func genC10(seed uint64) *Scenario {
 			}
 		}
 	}
-	nval := pick(r, []int{2, 3, 4, 4, 5, 6})
+	sharedMeta := r.Chance(850) // swarm: one Swagger meta-schema object for all validations of the run (10x faster after the first) / each document's own
+	reuse := r.Chance(500)      // swarm: the validations of this run share one loaded document object / load the bytes afresh each time
+	nval := pick(r, []int{2, 3, 4, 4, 5, 6, 8})
 	if deep() {
-		nval = pick(r, []int{3, 4, 6, 8, 10})
+		nval = pick(r, []int{3, 4, 6, 8, 10, 14})
 	}
 	for i := 0; i < nval; i++ {
 		if r.Chance(300) {
@@ -61,7 +63,7 @@ func genC10(seed uint64) *Scenario {
 		if r.Chance(200) {
 			add(Op{Kind: KSetCOE, COE: bp(r.Chance(500))})
 		}
-		op := Op{Kind: KSpec, Doc: doc, OrderSeed: r.U64() | 1, YAML: r.Chance(150), Reorder: r.Chance(150)}
+		op := Op{Kind: KSpec, Doc: doc, OrderSeed: r.U64() | 1, YAML: r.Chance(150), Reorder: r.Chance(150), ReuseDoc: reuse && r.Chance(800), SharedMeta: sharedMeta}
 		switch x := r.Intn(10); {
 		case x < 4:
 			op.COE = bp(false)
@@ -115,6 +117,60 @@ func defGraph(raw []byte) map[string][]string {
 	}
 	return g
 }
+
+// refCycle tells whether some definition of the raw document reaches itself through $ref (anywhere inside it: properties,
+// items, allOf, ...). The expander of the go-openapi/spec dependency resolves such cycles differently depending on the
+// map iteration order it happens to use (known finding); the note is attached to violations found on such documents.
+func refCycle(raw []byte) bool {
+	var doc struct {
+		Definitions map[string]json.RawMessage `json:"definitions"`
+	}
+	if json.Unmarshal(raw, &doc) != nil {
+		return false
+	}
+	g := map[string][]string{}
+	var collect func(v any, out *[]string)
+	collect = func(v any, out *[]string) {
+		switch t := v.(type) {
+		case map[string]any:
+			for k, e := range t {
+				if k == "$ref" {
+					if ref, ok := e.(string); ok && strings.HasPrefix(ref, "#/definitions/") {
+						*out = append(*out, ref)
+					}
+					continue
+				}
+				collect(e, out)
+			}
+		case []any:
+			for _, e := range t {
+				collect(e, out)
+			}
+		}
+	}
+	for name, rawDef := range doc.Definitions {
+		var v any
+		if json.Unmarshal(rawDef, &v) != nil {
+			continue
+		}
+		var refs []string
+		collect(v, &refs)
+		g["#/definitions/"+name] = refs
+	}
+	for n := range g {
+		if c := sccOf(g, n); len(c) > 1 {
+			return true
+		}
+		for _, m := range g[n] {
+			if m == n {
+				return true
+			}
+		}
+	}
+	return false
+}
+
+const refCycleNote = " [the document has a circular $ref among its definitions]"
 
 // sccOf returns the strongly connected component of node in g (sorted), or just the node.
 func sccOf(g map[string][]string, node string) []string {
@@ -219,9 +275,22 @@ func runC10(sc *Scenario, keepLog bool) *RunReport {
 	var kinds []string
 	nspec := 0
 	orders := map[uint64]bool{}
+	cycles := map[string]bool{}
+	cycleNote := func(doc string) string {
+		c, ok := cycles[doc]
+		if !ok {
+			raw, _ := docBytes(doc)
+			c = refCycle(raw)
+			cycles[doc] = c
+		}
+		if c {
+			return refCycleNote
+		}
+		return ""
+	}
 	viol := func(i int, op *Op, class, site, want, got, detail string) {
 		rep.Violations = append(rep.Violations, Violation{Property: "C10", Class: class, OpUID: op.UID, OpKind: op.Kind, Site: site, Expected: want, Got: got,
-			Detail: fmt.Sprintf("operation #%d (%s): %s", i, op.brief(), detail)})
+			Detail: fmt.Sprintf("operation #%d (%s): %s", i, op.brief(), detail) + cycleNote(op.Doc)})
 	}
 	for i := range ops {
 		op := &ops[i]
@@ -232,6 +301,7 @@ func runC10(sc *Scenario, keepLog bool) *RunReport {
 		switch op.Kind {
 		case KReset:
 			validate.VerifResetGlobals()
+			env.meta = nil
 			defCOE = initialCOE
 			rep.fault("process-state-reset", 1)
 			continue
@@ -282,6 +352,13 @@ func runC10(sc *Scenario, keepLog bool) *RunReport {
 			// under some orders / histories: then the repetition check below flags it
 		}
 		so := specOutcome{valid: out.Valid, errors: normSet(out.Errors, g), warnings: normSet(out.Warnings, g), panic: out.Panic}
+		// reach: which rules of the specification validator actually fired (message templates)
+		for _, m := range so.errors {
+			rep.probe("rule-fired E: "+ruleTemplate(m), 1)
+		}
+		for _, m := range so.warnings {
+			rep.probe("rule-fired W: "+ruleTemplate(m), 1)
+		}
 		if op.Kind == KSpec && out.Panic == "" {
 			// (5) the global setter changes what later validators capture, nothing else
 			wantCap := fmt.Sprintf("captured_coe=%v ", defCOE)
@@ -391,13 +468,14 @@ func runC10(sc *Scenario, keepLog bool) *RunReport {
 				if f := seen[fkeys[k]]; f.out.key() != so.key() {
 					rep.Violations = append(rep.Violations, Violation{Property: "C10", Class: "differs-from-fresh-process", OpUID: ops[f.op].UID, OpKind: KSpec,
 						Site: mismatchSpec(so, f.out), Expected: so.key(), Got: f.out.key(),
-						Detail: fmt.Sprintf("validation #%d (%s) differs from the same validation performed by a fresh process that did nothing else", f.op, ops[f.op].brief())})
+						Detail: fmt.Sprintf("validation #%d (%s) differs from the same validation performed by a fresh process that did nothing else", f.op, ops[f.op].brief()) + cycleNote(ops[f.op].Doc)})
 					break
 				}
 			}
 		}
 	}
 	rep.probe("spec-validations", nspec)
+	rep.fault("same-loaded-document-validated-again", env.docReuses)
 	rep.probe("distinct-map-orders", len(orders))
 	rep.NonTrivial = nspec >= 2
 	finishReport(rep, sim, kinds)
@@ -417,14 +495,37 @@ func runC10(sc *Scenario, keepLog bool) *RunReport {
 	return rep
 }
 
+// ruleTemplate reduces a message to its plain lower-case words (names, paths, numbers and quoted parts blanked): a
+// coarse identity of the rule that produced it, used only for the reach probes of the evidence file.
+func ruleTemplate(msg string) string {
+	msg = quotedRe.ReplaceAllString(msg, "_")
+	var out []string
+	for _, w := range strings.Fields(msg) {
+		plain := len(w) >= 2
+		for _, c := range w {
+			if !(c >= 'a' && c <= 'z') && c != ',' && c != ':' {
+				plain = false
+			}
+		}
+		if !plain {
+			w = "_"
+		}
+		if w == "_" && len(out) > 0 && out[len(out)-1] == "_" {
+			continue
+		}
+		out = append(out, strings.TrimRight(w, ":,"))
+	}
+	return trunc(strings.Join(out, " "), 100)
+}
+
 func mismatchSpec(a, b specOutcome) string {
 	switch {
 	case a.panic != b.panic:
 		return "panic"
+	case strings.Join(a.errors, "\n") != strings.Join(b.errors, "\n"):
+		return "errors:" + diffClass(a.errors, b.errors) // (a verdict that differs comes with an error set that differs)
 	case a.valid != b.valid:
 		return "verdict"
-	case strings.Join(a.errors, "\n") != strings.Join(b.errors, "\n"):
-		return "errors:" + diffClass(a.errors, b.errors)
 	case strings.Join(a.warnings, "\n") != strings.Join(b.warnings, "\n"):
 		return "warnings:" + diffClass(a.warnings, b.warnings)
 	}
@@ -496,7 +597,7 @@ func init() {
 		ID: "C10", Level: "exploration",
 		Gen:       func(seed uint64, tier string, idx int) *Scenario { return genC10(mixSeed(seed, uint64(idx))) },
 		Run:       runC10,
-		QuickRuns: 240, ThoroughS: 1500,
+		QuickRuns: 420, ThoroughS: 1500,
 		Rule: "one run = one document (generated mini specification with 0..4 rule-breaking edits, or a small repository fixture) validated 2..6 times: under different seeded map iteration orders (= Go's per-process randomisation, made replayable), " +
 			"from JSON or YAML-converted bytes, with continue-on-errors false/true set per validator or through the package-level setter, after other validations and after a reset of all process-wide state; " +
 			"non-trivial = at least two whole-spec validations; distinct = distinct (document, option/serialisation sequence)",
